@@ -40,7 +40,7 @@ def settings(B, rng, quick):
     p["units"] = rng.choice(femgen.UNITS)
     p["depth"] = rng.choice([1.0, 10.0])
     p["minangle"] = rng.choice([1.0, 10.0, 20.0, 25.0, 30.0, 33.0])
-    p["dosmartmesh"] = rng.choice([0, 0, 1])
+    p["dosmartmesh"] = rng.choice([0, 0, 0, 1]) if quick else rng.choice([0, 1])
     p["problemtype"] = "planar"
 
 
@@ -72,7 +72,7 @@ def seg_kw(kind, ids, rng, allow_cond=True):
 def fam_circle_in_square(rng, kind, quick):
     B = Builder(kind); ids = base_props(B, kind, rng); settings(B, rng, quick)
     W = rng.choice([4.0, 6.0, 10.0])
-    d = mesh_diameter(W * W / (60 if quick else 400))
+    d = mesh_diameter(W * W / (30 if quick else 400))
     outer = {k: seg_kw(kind, ids, rng) for k in "brtl"}
     if not any("bdry" in v for v in outer.values()):
         outer["b"] = dict(bdry=ids["bdry"][0])
@@ -99,7 +99,7 @@ def fam_circle_in_square(rng, kind, quick):
 def fam_nested_polygons(rng, kind, quick):
     B = Builder(kind); ids = base_props(B, kind, rng); settings(B, rng, quick)
     W, H = 8.0, 6.0
-    d = mesh_diameter(W * H / (70 if quick else 500))
+    d = mesh_diameter(W * H / (35 if quick else 500))
     outer = {k: seg_kw(kind, ids, rng) for k in "brtl"}
     outer["l"] = dict(bdry=ids["bdry"][0])
     B.rect(0.0, 0.0, W, H, outer)
@@ -124,7 +124,7 @@ def fam_annulus(rng, kind, quick):
     B = Builder(kind); ids = base_props(B, kind, rng); settings(B, rng, quick)
     ro = rng.choice([2.0, 3.0]); ri = ro * rng.choice([0.25, 0.5])
     maxseg = rng.choice([10.0, 20.0, 30.0])
-    d = mesh_diameter(math.pi * ro * ro / (60 if quick else 400))
+    d = mesh_diameter(math.pi * ro * ro / (30 if quick else 400))
     circle(B, 0.0, 0.0, ro, maxseg, bdry=ids["bdry"][0])
     kw = dict(bdry=ids["bdry"][1]) if kind == "fem" or rng.random() < 0.5 else dict(cond=ids["cond"][0])
     circle(B, 0.0, 0.0, ri, maxseg, **kw)
@@ -137,7 +137,7 @@ def fam_annulus(rng, kind, quick):
 def fam_rounded(rng, kind, quick):
     """stadium: two half circles joined by lines, inside a box, with a segment spacing"""
     B = Builder(kind); ids = base_props(B, kind, rng); settings(B, rng, quick)
-    d = mesh_diameter(12.0 * 8.0 / (80 if quick else 500))
+    d = mesh_diameter(12.0 * 8.0 / (40 if quick else 500))
     B.rect(-6.0, -4.0, 6.0, 4.0, dict(b=dict(bdry=ids["bdry"][0]), t=dict(bdry=ids["bdry"][1]), l=seg_kw(kind, ids, rng), r=seg_kw(kind, ids, rng)))
     r = 1.5
     a = B.point(-2.0, -r); b = B.point(2.0, -r); c = B.point(2.0, r); dd = B.point(-2.0, r)
@@ -155,7 +155,7 @@ def fam_rect(rng, kind, quick):
     if kind == "fem":
         B = Builder(kind); ids = base_props(B, kind, rng); settings(B, rng, quick)
         W, H = rng.choice([2.0, 4.0]), rng.choice([1.0, 3.0])
-        d = mesh_diameter(W * H / (60 if quick else 400))
+        d = mesh_diameter(W * H / (30 if quick else 400))
         B.rect(0.0, 0.0, W, H, {k: dict(bdry=ids["bdry"][0]) for k in "brtl"})
         B.rect(W * 0.25, H * 0.25, W * 0.5, H * 0.625)
         B.label(W * 0.1, H * 0.1, ids["mats"][0], maxarea=d)
